@@ -1035,7 +1035,8 @@ class CanBeVaries(Element):
             reference = ('leaf', None, 'varies', None, None, -1)
 
         if not Validator.is_strict(validation_level) and datatype not in (None, 'varies') \
-                and not is_base_datatype(datatype, version):
+                and not is_base_datatype(datatype, version) \
+                and (reference is None or reference[2] != datatype):  # keep a given reference (e.g. message profile)
             version = version or get_default_version()
             children_refs = load_reference(datatype, 'Datatypes_Structs', version)
             if name is not None:
